@@ -23,7 +23,7 @@ from symex import SymEx, show, strip, TooManyPaths
 
 
 def sk(t):
-    return re.sub(r'#\d+\.\d+', '', show(t))
+    return re.sub(r'#(?:i\d+:)?\d+\.\d+', '', show(t))
 
 
 class NotAffine(Exception):
@@ -502,7 +502,7 @@ def check_elimination(facts, rep):
                 for e in p.calls():
                     last = e.name.split('::')[-1]
                     if last == 'inv' and e.args:
-                        a0 = re.sub(r'#\d+\.\d+', '', show(e.args[0], -1000))
+                        a0 = re.sub(r'#(?:i\d+:)?\d+\.\d+', '', show(e.args[0], -1000))
                         if e.name.endswith('cob::Cob::inv') and re.search(r'\.0\)*$', a0):
                             cob_inv = True
                         elif 'Ring::inv' in e.name and re.search(r'\.1\)*$', a0):
@@ -513,7 +513,7 @@ def check_elimination(facts, rep):
                 v = strip(p.ret[4][0])
                 pair = None
                 if v[0] == 'call' and v[1].split('::')[-1] == 'from' and len(v[2]) == 1 and strip(v[2][0])[0] == 'tuple' and len(strip(v[2][0])[1]) == 2:
-                    pair = tuple(re.sub(r'#\d+\.\d+', '', show(x, -1000)) for x in strip(v[2][0])[1])
+                    pair = tuple(re.sub(r'#(?:i\d+:)?\d+\.\d+', '', show(x, -1000)) for x in strip(v[2][0])[1])
                 somes.append(pair)
         shape = (sorted(set(x for x in somes if x))[:1], cob_inv, ring_inv)
         built = bool(somes) and all(x is not None for x in somes)
@@ -744,13 +744,32 @@ def check_divisibility(facts, rep):
         rep.violation('E8.F10-divisibility', inst, 'div_vec takes %s instead of the minimum: a class is divisible by c^k only if *every* coordinate is' % r[0].split('(')[0], where=need[1].where())
     else:
         rep.indet('E8.F10: div_vec outside the recognised fragment: %s / %s' % (r, clo))
-    # D3
-    got = None
+    # D3: every div_vec site of compute_div, in a closure (r, c captured) or in its own body (r decided by `reduced` on the path)
+    got = set()
+    pat = re.compile(r'(expect|unwrap)\(div_vec\(&subvec\(&(.+), Range::Range\{start: 0, end: (.+?)\}\), (.+?)\)(?:, "[^"]*")?\)$')
+
+    def norm(t):
+        return re.sub(r'\^_ref__', '^', re.sub(r'#(?:i\d+:)?\d+\.\d+', '', show(t, -1000)))
     for k, b in facts.bodies.items():
         if k.startswith(CD + '::{closure'):
             for p in SymEx(b).run():
                 if p.end == 'return' and 'div_vec(' in sk(p.ret):
-                    got = re.sub(r'\^_ref__', '^', re.sub(r'#\d+\.\d+', '', show(p.ret, -1000)))
+                    m = pat.match(norm(p.ret))
+                    got.add(('closure', m.group(3), m.group(4)) if m else ('?', norm(p.ret)[:160]))
+    try:
+        for p in SymEx(need[2], havoc_loops=True, max_paths=20000).run():
+            red = next((e.value != 0 for e in p.branches() if sk(e.term) == 'arg3'), None)
+            for e in p.calls('push'):
+                v = norm(e.args[1])
+                if 'div_vec(' in v:
+                    m = pat.match(v)
+                    got.add(('body', (red, m.group(3)), m.group(4)) if m else ('?', v[:160]))
+            for e in p.calls('div_vec'):
+                if not any('div_vec(' in norm(x.args[-1] if x.name.split('::')[-1] == 'push' else x.args[0]) for x in p.calls('push', 'expect', 'unwrap')):
+                    got.add(('?', 'div_vec result not stored through expect / unwrap'))
+    except Exception as ex:
+        got.add(('?', str(ex)[:100]))
+    site_ok = got == {('closure', '**arg1.^r', '*arg1.^c')} or got == {('body', (True, '1'), 'arg2'), ('body', (False, '2'), 'arg2')}
     rv = set()
     rr = set()
     for p in SymEx(need[2], max_paths=20000).run():
@@ -766,11 +785,11 @@ def check_divisibility(facts, rep):
             eqs = [e for e in p.branches() if sk(e.term).startswith('all_equal(')]
             rv.add((red, rk, bool(eqs) and all(e.value != 0 for e in eqs)))
     inst = 'ss::compute_div|div_vec of the free coordinates 0..r of each class, all equal'
-    okc = got == 'expect(div_vec(&subvec(&arg2, Range::Range{start: 0, end: **arg1.^r}), *arg1.^c), "invalid divisibility.")' and rv == {(True, 1, True), (False, 2, True)} and rr == {', 0)'}
+    okc = site_ok and rv == {(True, 1, True), (False, 2, True)} and rr == {', 0)'}
     if okc:
         rep.ok('E8.F10-divisibility', inst, 'subvec(0..r), all_equal, ds[0]')
     else:
-        rep.indet('E8.F10: compute_div outside the recognised fragment: %s / %s / %s' % (got, sorted(rv, key=str), rr))
+        rep.indet('E8.F10: compute_div outside the recognised fragment: %s / %s / %s' % (sorted(got, key=str), sorted(rv, key=str), rr))
 
 
 def check_koszul_sign(facts, rep):
@@ -787,7 +806,7 @@ def check_koszul_sign(facts, rep):
     rep.saw(outer)
 
     def dk(t):
-        return re.sub(r'\^_ref__', '^', re.sub(r'#\d+\.\d+', '', show(t, -1000))).replace('&', '').replace('*', '')
+        return re.sub(r'\^_ref__', '^', re.sub(r'#(?:i\d+:)?\d+\.\d+', '', show(t, -1000))).replace('&', '').replace('*', '')
     fam = {}
     for k, b in facts.bodies.items():
         if k.startswith(root + '::{closure#0}::{closure#') and k.count('{closure') == 2:
@@ -859,7 +878,7 @@ def check_pivot_eligibility(facts, rep):
     rep.saw(inv)
 
     def dk(t):
-        return re.sub(r'\^_ref__', '^', re.sub(r'#\d+\.\d+', '', show(t, -1000))).replace('&', '').replace('*', '')
+        return re.sub(r'\^_ref__', '^', re.sub(r'#(?:i\d+:)?\d+\.\d+', '', show(t, -1000))).replace('&', '').replace('*', '')
     # does inv look at the first term only?
     first_only = False
     for p in SymEx(inv, max_paths=2000).run():
